@@ -579,6 +579,26 @@ func TestC12(t *testing.T) {
 			inv = append(inv, invalidCase{Conv: "PWrapErrors", Level: level, Line: line})
 		}
 	}
+	// unknown keys that are near misses of every known key (plural, dropped / doubled last letter,
+	// extra or unknown sub-key, other case), bare and with a value that the real key would accept
+	for _, key := range settingKeys {
+		for _, typo := range []string{key + "s", key[:len(key)-1], key + key[len(key)-1:], key + ":x", key + ":nilable", strings.ToUpper(key[:1]) + key[1:]} {
+			known := false
+			for _, k := range settingKeys {
+				if k == typo {
+					known = true
+				}
+			}
+			if known || typo == "" {
+				continue
+			}
+			for _, val := range []string{"", " yes", " no"} {
+				for _, level := range []string{"cli", "conv", "method"} {
+					inv = append(inv, invalidCase{Conv: "PWrapErrors", Level: level, Line: typo + val})
+				}
+			}
+		}
+	}
 	for _, l1 := range []string{"cli", "conv", "method"} {
 		for _, l2 := range []string{"cli", "conv", "method"} {
 			rank := map[string]int{"cli": 0, "conv": 1, "method": 2}
